@@ -62,6 +62,7 @@ class Crate:
         self.structs = {}
         self.enums = {}
         self.statics = []
+        self.consts = {}    # qualified name -> const item (module-level)
         self.extern_alias = {}
         self._load()
 
@@ -105,7 +106,7 @@ class Crate:
                 for f in it['fns']:
                     if f.get('cfg_test'):
                         continue
-                    ty = it['self_ty'].replace(' ', '')
+                    ty = strip_generics(it['self_ty'].replace(' ', ''))
                     q = f"{name}::{ty}::{f['name']}" if not it['trait'] else f"{name}::<{ty} as {it['trait'].replace(' ', '')}>::{f['name']}"
                     f['mod'], f['file'], f['qname'], f['impl_of'] = name, file, q, ty
                     self.fns[q] = f
@@ -115,6 +116,9 @@ class Crate:
                 self.enums[f"{name}::{it['name']}"] = it
             elif k == 'Static':
                 self.statics.append((name, it))
+            elif k == 'Const':
+                it['mod'] = name
+                self.consts[f"{name}::{it['name']}"] = it
 
     def call_graph(self):
         if getattr(self, '_cg', None) is not None:
@@ -133,6 +137,11 @@ class Crate:
 
         def scan(node, q, mod):
             if isinstance(node, dict):
+                if node.get('k') == 'MethodCall':
+                    ty = self.static_type(node['recv'], q)
+                    mq = self.method_of(ty, node['method']) if ty else None
+                    if mq:
+                        g[q].add(mq)
                 if node.get('k') == 'Call' and node['func'].get('k') == 'Path':
                     segs = node['func']['path']['segs']
                     p = self.resolve(mod, segs)
@@ -188,6 +197,92 @@ class Crate:
         self.scc = comp
         return g
 
+    def method_of(self, ty, name):
+        """qualified name of method `name` of crate type `ty` (qualified struct / enum path), or None"""
+        q = f'{ty}::{name}'
+        f = self.fns.get(q)
+        return q if f is not None and f.get('impl_of') else None
+
+    def crate_type_in(self, mod, ty_text):
+        """the crate struct / enum named by a type text like `&mut Collector<'_>` (references and generic arguments ignored), or None"""
+        t = strip_generics(ty_text.replace(' ', '')).lstrip('&')
+        if t.startswith("'"):
+            t = t.split(' ', 1)[-1]
+        while t.startswith('mut'):
+            t = t[3:]
+        t = t.lstrip('&')
+        if not t or not (t[0].isalpha() or t[0] == '_'):
+            return None
+        p = self.resolve(mod, t.split('::'))
+        return p if p in self.structs or p in self.enums else None
+
+    def static_type(self, node, q):
+        """crate type of a receiver expression, where it is evident from the source: `self`, a parameter with a declared crate type, a local
+        initialised by a struct literal / an associated function of a crate type, a field of such a value with a declared crate type"""
+        f = self.fns[q]
+        mod = f['mod']
+        k = node.get('k')
+        if k in ('Ref', 'Paren') and 'expr' in node:
+            return self.static_type(node['expr'], q)
+        if k == 'Unary' and node.get('op') == '*':
+            return self.static_type(node['expr'], q)
+        if k == 'Path' and len(node['path']['segs']) == 1:
+            nm = node['path']['segs'][0]
+            if nm == 'self' and f.get('impl_of'):
+                return self.resolve(mod, [f['impl_of']])
+            for p in f['params']:
+                if p['pat'].get('name') == nm:
+                    return self.crate_type_in(mod, p['ty'])
+            return self.local_types(q).get(nm)
+        if k == 'Field':
+            bt = self.static_type(node['base'], q)
+            st = self.structs.get(bt) if bt else None
+            if st:
+                for fl in st.get('fields', []):
+                    if fl.get('name') == node['member']:
+                        return self.crate_type_in(bt.rsplit('::', 1)[0], fl['ty'])
+        return None
+
+    def local_types(self, q):
+        cache = self.__dict__.setdefault('_local_types', {})
+        if q in cache:
+            return cache[q]
+        f = self.fns[q]
+        out = {}
+        dup = set()
+
+        def visit(node):
+            if isinstance(node, dict):
+                if node.get('k') == 'Let' and node['pat'].get('k') == 'PIdent' and node.get('init') is not None:
+                    nm, init, ty = node['pat']['name'], node['init'], None
+                    while init.get('k') in ('Ref', 'Paren'):
+                        init = init['expr']
+                    if init.get('k') == 'StructLit':
+                        ty = self.resolve(f['mod'], init['path']['segs'])
+                        if ty == 'Self' or init['path']['segs'] == ['Self']:
+                            ty = self.resolve(f['mod'], [f['impl_of']]) if f.get('impl_of') else None
+                    elif init.get('k') == 'Call' and init['func'].get('k') == 'Path' and len(init['func']['path']['segs']) >= 2:
+                        head = self.resolve(f['mod'], init['func']['path']['segs'][:-1])
+                        fq = f"{head}::{init['func']['path']['segs'][-1]}"
+                        if (head in self.structs or head in self.enums) and fq in self.fns and strip_generics(self.fns[fq].get('ret', '').replace(' ', '').replace('->', '')) in ('Self', head.split('::')[-1]):
+                            ty = head
+                    if ty in self.structs or ty in self.enums:
+                        if nm in out and out[nm] != ty:
+                            dup.add(nm)
+                        out[nm] = ty
+                    elif nm in out:
+                        dup.add(nm)
+                for v in node.values():
+                    visit(v)
+            elif isinstance(node, list):
+                for v in node:
+                    visit(v)
+        visit(f['body'])
+        for nm in dup:
+            out.pop(nm, None)
+        cache[q] = out
+        return out
+
     def same_recursive_component(self, a, b):
         self.call_graph()
         ca = self.scc.get(a)
@@ -222,13 +317,26 @@ class Crate:
         # item of this module or of the crate root
         for scope in (mod, 'crate'):
             q = f'{scope}::{first}'
-            if q in self.fns or q in self.structs or q in self.enums or q in self.mods:
+            if q in self.fns or q in self.structs or q in self.enums or q in self.mods or q in self.consts:
                 return '::'.join([scope] + segs)
         return '::'.join(segs)
 
 
 # ---------------------------------------------------------------------------------------------------------------------
 # quote! templates
+def strip_generics(ty):
+    """`Collector<'_, T>` -> `Collector`"""
+    out, depth = [], 0
+    for ch in ty:
+        if ch == '<':
+            depth += 1
+        elif ch == '>':
+            depth -= 1
+        elif depth == 0:
+            out.append(ch)
+    return ''.join(out)
+
+
 def tok_text(t):
     if t['t'] == 'g':
         close = {'(': ')', '{': '}', '[': ']', '': ''}[t['d']]
@@ -268,6 +376,104 @@ def items_text(items):
         else:
             out.append('#( ' + items_text(it[1]) + ' )' + it[2] + '*')
     return ' '.join(x for x in out if x)
+
+
+def conj_atoms(c):
+    if c == TRUE:
+        return []
+    if c[0] == 'and':
+        return [a for x in c[1] for a in conj_atoms(x)]
+    return [c]
+
+
+def decision_list(t):
+    """canonical decision list of a (possibly nested) alt: [(atoms, value)] in order; an exhaustive inner alt is flattened in place, arms after an
+    unconditional arm are dropped and arms that yield the same value as the unconditional arm directly following them are merged into it"""
+    out = []
+
+    def go(x, pre):
+        if x[0] == 'alt' and x[1] and (not pre or exhaustive_alt(x)):
+            for c, v in x[1]:
+                go(v, pre + conj_atoms(c))
+                if c == TRUE:
+                    break
+        else:
+            out.append((pre, x))
+    go(t, [])
+    out = [([norm_atom(a) for a in c], v) for c, v in out]
+    out = simplify_decisions(out)
+    for i, (c, v) in enumerate(out):
+        if not c:
+            out = out[:i + 1]
+            break
+    while len(out) >= 2 and not out[-1][0] and out[-2][1] == out[-1][1]:
+        del out[-2]
+    return out
+
+
+def exhaustive_alt(x):
+    """the conditions of the arms cover every case (propositionally, over the normalised atoms)"""
+    arms = [[norm_atom(a) for a in conj_atoms(c)] for c, _ in x[1]]
+    if any(not a for a in arms):
+        return True
+    base = []
+    for c in arms:
+        for a in c:
+            b = a[1] if a[0] == 'not' else a
+            if b not in base:
+                base.append(b)
+    if len(base) > 10:
+        return False
+    import itertools
+    for bits in itertools.product((False, True), repeat=len(base)):
+        w = dict(zip(range(len(base)), bits))
+        if not any(all(((not w[base.index(a[1])]) if a[0] == 'not' else w[base.index(a)]) for a in c) for c in arms):
+            return False
+    return True
+
+
+def norm_atom(a):
+    if a[0] == 'is' and a[2] in ('None', 'Option::None'):
+        return ('not', ('t', ('is_some', a[1])))
+    if a[0] == 'is' and a[2] in ('Some', 'Option::Some'):
+        return ('t', ('is_some', a[1]))
+    if a[0] == 'not' and a[1][0] == 'not':
+        return norm_atom(a[1][1])
+    if a[0] == 'not':
+        return ('not', norm_atom(a[1]))
+    return a
+
+
+def simplify_decisions(arms):
+    """drop atoms implied by the failure of all earlier arms (propositional, by enumeration over the atoms; skipped beyond 10 atoms)"""
+    base = []
+    for c, _ in arms:
+        for a in c:
+            b = a[1] if a[0] == 'not' else a
+            if b not in base:
+                base.append(b)
+    if len(base) > 10 or not base:
+        return arms
+    import itertools
+    worlds = [dict(zip(range(len(base)), bits)) for bits in itertools.product((False, True), repeat=len(base))]
+
+    def holds(a, w):
+        return (not w[base.index(a[1])]) if a[0] == 'not' else w[base.index(a)]
+    out = []
+    for c, v in arms:
+        c = list(c)
+        live = [w for w in worlds if all(not all(holds(a, w) for a in pc) for pc, _ in out)]
+        changed = True
+        while changed:
+            changed = False
+            for a in list(c):
+                rest = [x for x in c if x is not a]
+                if all(holds(a, w) for w in live if all(holds(x, w) for x in rest)):
+                    c = rest
+                    changed = True
+                    break
+        out.append((c, v))
+    return out
 
 
 def cond_facts(c, pos=None, neg=None):
@@ -474,6 +680,8 @@ class Interp:
         if uses and segs and segs[0] in uses:
             segs = uses[segs[0]].split('::') + segs[1:]
         return self.c.resolve(self.frame['mod'], segs)
+
+    const_busy = set()
 
     def fresh(self, prefix):
         self.next_id += 1
@@ -698,6 +906,9 @@ class Interp:
                 for u in st['item']['uses']:
                     if u['alias'] != '*':
                         self.frame.setdefault('uses', {})[u['alias']] = u['path']
+        for st in stmts:
+            if st['k'] == 'ItemStmt' and st['item'].get('k') == 'Const' and st['item'].get('expr') is not None:
+                env[st['item']['name']] = self.expr(st['item']['expr'], Env())       # a constant sees no locals
         for i, st in enumerate(stmts):
             k = st['k']
             if k == 'Let':
@@ -754,6 +965,16 @@ class Interp:
         p = self.resolve(segs)
         if p in ('None', 'std::option::Option::None', 'Option::None'):
             return ('opt', FALSE, ('tuple', []))
+        if p in self.c.consts and self.c.consts[p].get('expr') is not None and p not in self.const_busy:
+            it = self.c.consts[p]
+            self.const_busy.add(p)
+            saved = self.frame['mod']
+            self.frame['mod'] = it['mod']
+            try:
+                return self.expr(it['expr'], Env())
+            finally:
+                self.frame['mod'] = saved
+                self.const_busy.discard(p)
         return ('path', p)
 
     def e_Lit(self, e, env, **kw):
@@ -1111,7 +1332,7 @@ class Interp:
             else:
                 flat.append(c)
         flat = [c for c in flat if not any(c == o or (o[0] == 'and' and c in o[1]) for o in outer)]
-        return ('star', src, eid, e['val'], list(conds) + flat, False)
+        return ('star', src, eid, e['val'], list(conds) + flat, bool(e.get('flat')))
 
     def tmpl_items(self, ts, env, node):
         items = []
@@ -1273,14 +1494,55 @@ class Interp:
             return x
         return go(t)
 
+    def subst_elem(self, t, eid, new):
+        """replace the element term of loop `eid` by `new` (used when an element escapes its loop: find / find_map)"""
+        memo = {}
+
+        def go(x):
+            if isinstance(x, tuple):
+                if id(x) in memo:
+                    return memo[id(x)]
+                if x and x[0] == 'elem' and x[1] == eid:
+                    r = new
+                elif x and x[0] == 'closure':
+                    r = x
+                else:
+                    r = tuple(go(y) for y in x)
+                memo[id(x)] = r
+                return r
+            if isinstance(x, list):
+                return [go(y) for y in x]
+            if isinstance(x, dict):
+                return {k: go(v) for k, v in x.items()}
+            return x
+        return go(t)
+
     def e_MethodCall(self, e, env, let_name=None, let_mut=False):
         m = e['method']
         recv = self.expr(e['recv'], env)
+        # method of a crate type (receiver type evident from the value or from the source) ------------------------------------------
+        rty = None
+        if recv[0] == 'struct':
+            rty = recv[1]
+        elif recv[0] == 'param' and recv[2] == 'self' and self.c.fns.get(recv[1], {}).get('impl_of'):
+            rty = self.c.resolve(self.c.fns[recv[1]]['mod'], [self.c.fns[recv[1]]['impl_of']])
+        elif self.frame['callee'] in self.c.fns:
+            rty = self.c.static_type(e['recv'], self.frame['callee'])
+        mq = self.c.method_of(rty, m) if rty else None
+        if mq and self.c.fns[mq]['params'] and self.c.fns[mq]['params'][0]['pat'].get('name') == 'self':
+            args = [self.expr(a, env) for a in e['args']]
+            self.inline_calls.append((self.frame['callee'], mq, e['line']))
+            return self.call_fn(mq, [recv] + args, line=e['line'])
         # side effects on accumulators / collections -----------------------------------------------------------------
         if m == 'push' and recv[0] == 'acc':
             v = self.expr(e['args'][0], env)
             self.accs[recv[1]]['entries'].append({'cond': self.pathcond(), 'val': v, 'loops': list(self.frame['loops']), 'line': e['line'],
                                                   'fn': self.frame['callee']})
+            return ('tuple', [])
+        if m == 'extend' and recv[0] == 'acc' and len(e['args']) == 1:
+            v = self.expr(e['args'][0], env)
+            self.accs[recv[1]]['entries'].append({'cond': self.pathcond(), 'val': v, 'loops': list(self.frame['loops']), 'line': e['line'],
+                                                  'fn': self.frame['callee'], 'flat': True})
             return ('tuple', [])
         if m in ('push', 'insert', 'extend', 'push_str', 'remove', 'clear', 'retain', 'update'):
             args = [self.expr(a, env) for a in e['args']]
@@ -1288,6 +1550,7 @@ class Interp:
             return ('mcall', recv, m, args)
         if m in ('sort_by_key', 'dedup_by_key', 'sort', 'sort_by', 'dedup', 'reverse', 'sort_unstable', 'sort_unstable_by_key', 'truncate', 'dedup_by'):
             args = [self.expr(a, env) for a in e['args']]
+            recv = self.acc_view(recv)
             new = ('reorder', recv, m, args, self.pathcond())
             if e['recv']['k'] == 'Path' and len(e['recv']['path']['segs']) == 1:
                 env.assign(e['recv']['path']['segs'][0], new)
@@ -1345,6 +1608,8 @@ class Interp:
         args = [self.expr(a, env) for a in args_nodes]
         if m == 'unwrap_or':
             return self.unwrap_or(recv, args[0])
+        if m == 'then_some' and len(args) == 1:
+            return ('opt', self.as_cond(recv), args[0])
         if m == 'unzip' and recv[0] == 'star':
             return ('tuple', [('star', recv[1], recv[2], self.field(recv[3], '0'), recv[4], recv[5]), ('star', recv[1], recv[2], self.field(recv[3], '1'), recv[4], recv[5])])
         if m == 'unzip':
@@ -1365,12 +1630,6 @@ class Interp:
             if m in ('is_empty', 'contains', 'contains_key', 'eq', 'starts_with', 'ends_with', 'intersects'):
                 return ('t', ('mcall', recv, m, args))
             return ('mcall', recv, m, args)
-        # method of a crate type?  (e.g. self.helper())
-        for q, f in (self.c.fns.items() if recv[0] == 'param' and recv[2] == 'self' else ()):
-            if f.get('impl_of') and f['name'] == m and q.endswith('::' + m) and ' as ' not in q:
-                if f['params'] and f['params'][0]['pat'].get('name') == 'self':
-                    self.inline_calls.append((self.frame['callee'], q, e['line']))
-                    return self.call_fn(q, [recv] + args, line=e['line'])
         return ('mcall', recv, m, args)
 
     def is_optionish(self, recv, node):
@@ -1491,7 +1750,13 @@ class Interp:
             return ('opt', ('t', ('any', ('star', src, eid, body, conds, flat), self.as_cond(r))), ('found', ('star', src, eid, body, conds + [self.as_cond(r)], flat), eid))
         if m == 'find_map':
             c, v = self.as_opt(r)
-            return ('opt', ('t', ('any', ('star', src, eid, body, conds, flat), c or TRUE)), v)
+            if c is None:
+                c, v = ('t', ('is_some', r)), ('unwrap', r)
+            # the value is computed from the first element satisfying the condition: the same `found` element as `.find(cond)`
+            found = ('found', ('star', src, eid, body, conds + [c], flat), eid)
+            if body[0] == 'elem' and body[1] == eid:
+                v = self.subst_elem(v, eid, found)
+            return ('opt', ('t', ('any', ('star', src, eid, body, conds, flat), c)), v)
         if m == 'for_each':
             return ('tuple', [])
         if m in ('max_by_key', 'min_by_key'):
